@@ -123,9 +123,11 @@ void run_case(verif::Src& s, verif::Stats& st, const bool literal)
     bool f_accepted = false, f_refused = false;
     unsigned nops = s.range<unsigned>(2, 12);
     for (unsigned op = 0; op < nops && !s.exhausted(); ++op) {
-        unsigned kind = s.range<unsigned>(0, 9);
+        unsigned kind = s.range<unsigned>(0, 11);
         L = ws.Ledger();
         st.mix(uint64_t(kind));
+        const bool had_origs = !origs.empty();
+        size_t forced_bump = SIZE_MAX; // drain+exact op: bump the changeless payment right away
         if (kind <= 1 || origs.empty()) {
             // wallet-created payment
             wallet::CCoinControl cc;
@@ -186,10 +188,52 @@ void run_case(verif::Src& s, verif::Stats& st, const bool literal)
             VCHECK(m.delivery.processed, "c56.harness", "block rejected");
             st.cls("mine");
             st.note("mine txs=", m.txs.size());
-        } else {
+        } else if (kind >= 10) {
+            // drain + exact payment: P1 (1 sat/vB) spends the confirmed coins except X (kind 11: and a spare Y) and leaves a large unconfirmed change;
+            // P2 pays away X completely (no change, higher feerate). Bumping P2 needs an ADDITIONAL input: a confirmed spare if there is one; the
+            // unconfirmed change of P1 must not be used (feebumper demands confirmed inputs: "We cannot source new unconfirmed inputs (bip125 rule 2)").
+            std::vector<std::pair<COutPoint, CAmount>> conf;
+            for (auto& [op2, c] : L.coins) if (c.depth >= 1 && c.trusted && !c.immature && c.value >= 200000) conf.emplace_back(op2, c.value);
+            if (conf.size() < 2) continue;
+            size_t xi = s.index(conf.size());
+            auto X = conf[xi];
+            conf.erase(conf.begin() + xi);
+            if (kind == 11 && conf.size() >= 2) conf.erase(conf.begin() + s.index(conf.size())); // spare Y stays confirmed and unspent
+            {
+                wallet::CCoinControl cc;
+                cc.m_feerate = CFeeRate{1000};
+                cc.m_allow_other_inputs = false;
+                CAmount sum = 0;
+                for (auto& [op2, v] : conf) { cc.Select(op2); sum += v; }
+                std::vector<wallet::CRecipient> rcp{{foreign_dest(0), sum * 3 / 10, false}};
+                auto res = wallet::CreateTransaction(*ws.w, rcp, std::nullopt, cc, true);
+                if (!res) { st.cls("payment-failed"); continue; }
+                ws.w->CommitTransaction(res->tx);
+                if (ws.Submit(res->tx).m_result_type != MempoolAcceptResult::ResultType::VALID) { ws.AbandonFloating(); st.cls("payment-rejected"); continue; }
+                origs.push_back({res->tx, true, false});
+                st.note("drain ", res->tx->GetHash().ToString().substr(0, 8), " in=", res->tx->vin.size(), " fee=", res->fee);
+            }
+            {
+                wallet::CCoinControl cc;
+                cc.m_feerate = CFeeRate{s.pick<CAmount>({25000, 10000, 5000})};
+                cc.m_allow_other_inputs = false;
+                cc.Select(X.first);
+                std::vector<wallet::CRecipient> rcp{{foreign_dest(s.range<unsigned>(0, 2)), X.second, true}};
+                auto res = wallet::CreateTransaction(*ws.w, rcp, std::nullopt, cc, true);
+                if (!res) { st.cls("payment-failed"); continue; }
+                ws.w->CommitTransaction(res->tx);
+                if (ws.Submit(res->tx).m_result_type != MempoolAcceptResult::ResultType::VALID) { ws.AbandonFloating(); st.cls("payment-rejected"); continue; }
+                origs.push_back({res->tx, true, false});
+                st.cls("drain+exact-payment");
+                st.note("exact ", res->tx->GetHash().ToString().substr(0, 8), " out=", res->tx->vout.size(), " fee=", res->fee);
+                if (s.chance(200)) forced_bump = origs.size() - 1;
+            }
+            L = ws.Ledger();
+        }
+        if ((kind >= 6 && kind <= 9 && had_origs) || forced_bump != SIZE_MAX) {
             // ---------------------------------------------------------------- bump
-            size_t oi = s.index(origs.size());
-            if (s.chance(70)) { // prefer an original that is already confirmed
+            size_t oi = forced_bump != SIZE_MAX ? forced_bump : s.index(origs.size());
+            if (forced_bump == SIZE_MAX && s.chance(70)) { // prefer an original that is already confirmed
                 for (size_t k = 0; k < origs.size(); ++k) if (L.in_chain.count(origs[k].tx->GetHash())) { oi = k; break; }
             }
             Orig& og = origs[oi];
@@ -198,7 +242,20 @@ void run_case(verif::Src& s, verif::Stats& st, const bool literal)
             bool has_desc = false; // a live descendant: a mempool transaction spending one of its outputs
             for (auto& t : L.mempool_txs) for (auto& in : t->vin) if (in.prevout.hash == txid) has_desc = true;
             const bool in_mempool = L.mempool.count(txid) > 0;
-            unsigned mode = s.range<unsigned>(0, 3);
+            unsigned mode = forced_bump != SIZE_MAX ? s.range<unsigned>(0, 1) : s.range<unsigned>(0, 3);
+            // does the bump have to ADD inputs (no change output to take the higher fee from), and which spare coins does the wallet hold?
+            bool orig_has_change = false;
+            for (auto& out : og.tx->vout) if (is_change(out)) orig_has_change = true;
+            bool spare_confirmed = false, spare_unconfirmed = false;
+            for (auto& [op2, c] : L.coins) {
+                if (c.immature || !c.trusted || c.value < 20000 || op2.hash == txid) continue;
+                (c.depth >= 1 ? spare_confirmed : spare_unconfirmed) = true;
+            }
+            if (!orig_has_change && !confirmed && !og.bumped) {
+                st.cls("bump-must-add-inputs");
+                if (spare_unconfirmed) st.cls("bump-added-unconfirmed-input-available");
+                if (spare_unconfirmed && !spare_confirmed) st.cls("bump-only-unconfirmed-spare");
+            }
             wallet::CCoinControl cc;
             std::optional<CAmount> rate;
             std::vector<CTxOut> new_outputs;
@@ -250,7 +307,7 @@ void run_case(verif::Src& s, verif::Stats& st, const bool literal)
                 continue;
             }
             // ---- successful bump: invariants
-            VCHECK(in_mempool, "c56.harness", "bumped an original that is neither confirmed nor in the mempool");
+            VCHECK(in_mempool, "c56.harness", "bumped an original that is neither confirmed nor in the mempool", "| history:", st.sample);
             std::set<COutPoint> new_ins;
             for (auto& in : mtx.vin) new_ins.insert(in.prevout);
             for (auto& in : og.tx->vin) VCHECK(new_ins.count(in.prevout), "c56.inputs-dropped", "replacement does not spend original input", in.prevout.ToString());
@@ -324,7 +381,7 @@ void run_case(verif::Src& s, verif::Stats& st, const bool literal)
 } // namespace
 
 VERIF_TARGET(c56_bump, nullptr, 96, 700,
-             "a funded descriptor wallet on a regtest node; ops (<=12): wallet-created payment (1-2 recipients, with/without change, signalling or not, "
+             "a funded descriptor wallet on a regtest node; ops (<=12): drain+exact payment pair (a 1 sat/vB payment spending the confirmed coins and leaving unconfirmed change, then a changeless payment whose bump must add an input), wallet-created payment (1-2 recipients, with/without change, signalling or not, "
              "committed + broadcast), harness-built payment mixing a wallet coin with a foreign coin, child spending an original's unconfirmed change, mine a "
              "subset of the mempool, bump an original (also confirmed / already bumped / with descendants / not-all-ours ones) in one of four modes: default, "
              "explicit feerate (from too low to 4x), caller-supplied outputs, fee taken from a designated change output; successful bumps are signed, "
